@@ -151,6 +151,64 @@ def run(tier: str, seed: int) -> int:
         chk.broken.append(f"translator cross-check: extractor saw {info.get('intrinsics')} intrinsic names, independent pass {counts['intrinsics']} (+HASH, STR)")
     if len(info.get("enums", {})) != counts["enums"]:
         chk.broken.append(f"translator cross-check: extractor saw {len(info.get('enums', {}))} enums, independent pass {counts['enums']}")
+    # -- mechanism level: every wrapper, called from a program, is emitted with its operands in order and with an output
+    #    register exactly when the instruction has one — as a value AND as a bare statement ------------------------------------
+    from . import whole
+    drv = common.Driver()
+    sig = {}
+    import ast as _ast
+    modi = _ast.parse((common.REPO / "src" / "stationeers_pytrapic" / "intrinsics.py").read_text())
+    KIND_ARG = {"float": "db.On", "_Register | float": "db.On", "_Device": "d1", "LogicType": "LogicType.Setting", "LogicSlotType": "LogicSlotType.Quantity",
+                "LogicBatchMethod": "LogicBatchMethod.Sum", "LogicReagentMode": "LogicReagentMode.Contents"}
+    n_emit = 0
+    for fn in [n for n in modi.body if isinstance(n, _ast.FunctionDef)]:
+        name = fn.name
+        if name in KNOWN_A + KNOWN_B + ["HASH", "STR", "alias", "define"] or name.startswith("b") and name not in ("bdns",) and name[1:2] in "ragnle" and name not in ("abs",):
+            continue
+        if name in ("j", "jal", "jr", "hcf", "yield_", "sleep") or name.startswith("br") or name.startswith("b"):
+            continue
+        args = []
+        ok = True
+        for a in fn.args.args:
+            ann = _ast.unparse(a.annotation) if a.annotation is not None else "float"
+            pick = None
+            for k, v in KIND_ARG.items():
+                if k in ann:
+                    pick = v
+            if "Device" in ann or "device" in a.arg.lower() and "hash" not in a.arg.lower():
+                pick = "d1"
+            if "LogicSlotType" in ann:
+                pick = "LogicSlotType.Quantity"
+            elif "LogicBatchMethod" in ann:
+                pick = "LogicBatchMethod.Sum"
+            elif "LogicReagentMode" in ann:
+                pick = "LogicReagentMode.Contents"
+            elif "LogicType" in ann:
+                pick = "LogicType.Setting"
+            args.append(pick or "db.On")
+        call = f"{name}({', '.join(args)})"
+        ret = _ast.unparse(fn.returns) if fn.returns is not None else "None"
+        has_result = ret not in ("None",)
+        progs = [("bare statement", f"{call}\n")]
+        if has_result:
+            progs.append(("value", f"x = {call}\ndb.Setting = x\n"))
+        for how, src in progs:
+            res = whole.compile_any(src, whole.default_opts(append_version=False))
+            if "error" in res:
+                continue
+            n_emit += 1
+            chk.count(("emit", name, how))
+            w = drv.call(cmd="wf", text=res["code"])
+            op = name[:-1] if name.endswith("_") else name
+            lines = [l for l in res["code"].split("\n") if l.split() and l.split()[0] == op]
+            if not lines:
+                failures.append({"what": f"intrinsic {name} used as {how}: no '{op}' instruction is emitted: {res['code']!r}", "row": name, "src": src})
+                continue
+            errs = [e for ln, e in w["errors"] if res["code"].split("\n")[ln].split()[:1] == [op]]
+            if errs:
+                failures.append({"what": f"intrinsic {name} used as {how} is emitted as {lines[0].strip()!r}: {errs[0]}", "row": name, "src": src})
+    drv.close()
+    counts["intrinsics_emitted_from_programs"] = n_emit
     known_ids = {f["id"] for f in chk.known}
     for fid, what in known_hits.items():
         if fid in known_ids:
